@@ -57,7 +57,10 @@ type Case struct {
 	Duplex *o4pair.DuplexOpts `json:"duplex,omitempty"`
 	// on-path key recovery: every 32-byte window of both public handshake flights is tried as
 	// KEY_SEED against the first real frames; plus the ntor output tie (driver ntor)
-	KeyRec bool `json:"keyrec,omitempty"` // the caller keeps calling Read after the first error: so many more error-returning Reads
+	KeyRec bool `json:"keyrec,omitempty"`
+	// cross-connection histories in one process (replay of recorded frames into another
+	// connection; connections closed with undelivered data followed by new connections)
+	Multi []MConn `json:"multi,omitempty"` // the caller keeps calling Read after the first error: so many more error-returning Reads
 }
 
 type verdict struct {
@@ -509,6 +512,207 @@ func (x *runner) runHS(c Case, o *Outcome) {
 	}
 }
 
+// MConn is one connection of a cross-connection history.
+type MConn struct {
+	NewFactory bool    `json:"new_factory,omitempty"` // a different bridge (new server factory); the first connection always makes one
+	FreshArgs  bool    `json:"fresh_args,omitempty"`  // re-parse the client args (new client session key); else the previous args object is dialled again
+	Steps      []MStep `json:"steps"`
+}
+
+// MStep kinds: "x" honest exchange (Dir writes Sizes, delivered and read completely, the wire
+// bytes recorded as Tag) | "partial" (Dir writes Sizes, all delivered, the reader does ONE Read of
+// ReadN bytes and stops: decoded payload stays unread) | "inject" (the wire bytes recorded on
+// connection From under Tag are delivered into Dir, then EOF) | "close" (Close() on both obfs4
+// endpoints).
+type MStep struct {
+	Kind  string `json:"kind"`
+	Dir   int    `json:"dir"`
+	Sizes []int  `json:"sizes,omitempty"`
+	Tag   string `json:"tag,omitempty"`
+	From  int    `json:"from,omitempty"`
+	ReadN int    `json:"read_n,omitempty"`
+}
+
+func (x *runner) runMulti(c Case, o *Outcome) {
+	o.Class, o.ErrClass = "cross-connection", "none"
+	var fac *o4pair.Factory
+	var facs []*o4pair.Factory
+	var cargs interface{}
+	defer func() {
+		for _, f := range facs {
+			f.Close()
+		}
+	}()
+	recs := map[string][]byte{}
+	var allWritten [][2][]byte // per connection, per direction: what the peer wrote (distinctive content)
+	var pairs []*o4pair.Pair
+	defer func() {
+		for _, p := range pairs {
+			p.Close()
+		}
+	}()
+	whose := func(sample []byte, self int) string {
+		if len(sample) < 8 {
+			return "unknown origin"
+		}
+		for i, w := range allWritten {
+			for d := 0; d < 2; d++ {
+				if bytes.Contains(w[d], sample[:8]) {
+					if i == self {
+						return fmt.Sprintf("this connection's own %s stream", o4pair.DirName(d))
+					}
+					return fmt.Sprintf("the %s plaintext of connection #%d", o4pair.DirName(d), i)
+				}
+			}
+		}
+		return "no connection's plaintext"
+	}
+	for ci, mc := range c.Multi {
+		if ci == 0 || mc.NewFactory {
+			p := c.P
+			p.TapeSeed += uint64(ci) * 7919
+			if ci > 0 {
+				pp := o4pair.RandomParams(vlib.NewRng(c.P.TapeSeed+uint64(ci)), c.P.IAT, c.P.Biased)
+				pp.TapeSeed = p.TapeSeed
+				p = pp
+			}
+			f, err := o4pair.NewFactory(p)
+			if err != nil {
+				o.V = &verdict{"handshake-failed", err.Error()}
+				return
+			}
+			fac = f
+			facs = append(facs, f)
+			cargs = nil
+		}
+		if cargs == nil || mc.FreshArgs {
+			a, err := fac.ParseArgs()
+			if err != nil {
+				o.V = &verdict{"handshake-failed", err.Error()}
+				return
+			}
+			cargs = a
+		}
+		pr, err := fac.Connect(cargs, o4pair.SetupOpts{Hello: o4pair.Chunker{Kind: "whole"}, Resp: o4pair.Chunker{Kind: "whole"}})
+		if errors.Is(err, o4pair.ErrF2) {
+			o.Skipped = "F2"
+			return
+		}
+		if err != nil {
+			o.V = &verdict{"handshake-failed", fmt.Sprintf("connection #%d: %v", ci, err)}
+			return
+		}
+		pairs = append(pairs, pr)
+		allWritten = append(allWritten, [2][]byte{})
+		rng := vlib.NewRng(c.P.TapeSeed ^ (0xC0 + uint64(ci)*0x9E37))
+		dead := [2]bool{}
+		// verify applies the per-connection stream oracle to direction dir of connection ci
+		verify := func(dir int, what string) bool {
+			rd := pr.Reader(dir)
+			want := allWritten[ci][dir]
+			switch {
+			case rd.Panic != nil:
+				o.V = &verdict{"panic-in-read", fmt.Sprintf("connection #%d %s %s: Read panicked: %v", ci, o4pair.DirName(dir), what, rd.Panic)}
+			case !bytes.HasPrefix(want, rd.Got):
+				k := 0
+				for k < len(rd.Got) && k < len(want) && rd.Got[k] == want[k] {
+					k++
+				}
+				e := k + 16
+				if e > len(rd.Got) {
+					e = len(rd.Got)
+				}
+				o.V = &verdict{"delivered-bytes-of-another-connection", fmt.Sprintf("connection #%d %s %s: delivered %d bytes; from offset %d on they are not what THIS connection's peer wrote (%d bytes so far): %x… is from %s",
+					ci, o4pair.DirName(dir), what, len(rd.Got), k, len(want), rd.Got[k:e], whose(rd.Got[k:e], ci))}
+			}
+			return o.V == nil
+		}
+		for si, st := range mc.Steps {
+			what := fmt.Sprintf("step %d (%s)", si, st.Kind)
+			if st.Kind != "close" && dead[st.Dir] {
+				continue
+			}
+			switch st.Kind {
+			case "x", "partial":
+				var wire []byte
+				for _, n := range st.Sizes {
+					b := rng.Bytes(n)
+					allWritten[ci][st.Dir] = append(allWritten[ci][st.Dir], b...)
+					ws, werr, pan := pr.Write(st.Dir, b)
+					if pan != nil || werr != nil {
+						if isF2(pan) {
+							o.Skipped = "F2"
+						} else {
+							o.V = &verdict{"write-error", fmt.Sprintf("connection #%d %s Write(%d): %v %v", ci, o4pair.DirName(st.Dir), n, werr, pan)}
+						}
+						return
+					}
+					for _, w := range ws {
+						wire = append(wire, w...)
+					}
+				}
+				if st.Tag != "" {
+					recs[fmt.Sprintf("%d/%s", ci, st.Tag)] = wire
+				}
+				pr.Deliver(st.Dir, wire, nil)
+				rd := pr.Reader(st.Dir)
+				if st.Kind == "partial" {
+					rd.ReadOnce(st.ReadN)
+					dead[st.Dir] = true
+					if !verify(st.Dir, what) {
+						return
+					}
+					o.Stats["partial-reads"]++
+					continue
+				}
+				blocked := rd.Drain(func() int { return 32768 })
+				if !verify(st.Dir, what) {
+					return
+				}
+				if !blocked || rd.Err != nil || len(rd.Got) != len(allWritten[ci][st.Dir]) {
+					o.V = &verdict{"honest-stream-not-delivered", fmt.Sprintf("connection #%d %s %s: %d of %d bytes, err %v", ci, o4pair.DirName(st.Dir), what, len(rd.Got), len(allWritten[ci][st.Dir]), rd.Err)}
+					return
+				}
+				o.Stats["honest-exchanges"]++
+			case "inject":
+				wire := recs[fmt.Sprintf("%d/%s", st.From, st.Tag)]
+				if len(wire) == 0 {
+					continue
+				}
+				rd := pr.Reader(st.Dir)
+				before := len(rd.Got)
+				pr.Deliver(st.Dir, wire, nil)
+				pr.EOF(st.Dir)
+				rd.Drain(func() int { return 32768 })
+				dead[st.Dir] = true
+				o.Stats["injections"]++
+				if rd.Panic != nil {
+					o.V = &verdict{"panic-in-read", fmt.Sprintf("connection #%d: Read panicked on frames recorded on connection #%d: %v", ci, st.From, rd.Panic)}
+					return
+				}
+				if len(rd.Got) > before {
+					e := before + 16
+					if e > len(rd.Got) {
+						e = len(rd.Got)
+					}
+					o.V = &verdict{"cross-connection-replay-accepted", fmt.Sprintf("the %s frames recorded on connection #%d (%q, %d wire bytes) were injected at the same frame position into connection #%d (same server factory: %v, same client args object: %v): its Read DELIVERED %d bytes its own peer never sent (%x… = %s); error reported: %v",
+						o4pair.DirName(st.Dir), st.From, st.Tag, len(wire), ci, !mc.NewFactory, !mc.FreshArgs, len(rd.Got)-before, rd.Got[before:e], whose(rd.Got[before:e], ci), rd.Err)}
+					return
+				}
+				if rd.Err == nil {
+					o.V = &verdict{"no-error-reported", fmt.Sprintf("connection #%d: foreign frames from connection #%d followed by EOF: no error", ci, st.From)}
+					return
+				}
+				o.ErrClass = o4pair.ErrClass(rd.Err)
+			case "close":
+				pr.CloseEndpoints()
+				dead = [2]bool{true, true}
+				o.Stats["closes"]++
+			}
+		}
+	}
+}
+
 // runKeyRec: an adversary who only SEES the wire must not be able to derive the frame keys.
 func (x *runner) runKeyRec(c Case, o *Outcome) {
 	pr, err := o4pair.Setup(c.P, o4pair.SetupOpts{Hello: o4pair.Chunker{Kind: "whole"}, Resp: o4pair.Chunker{Kind: "whole"}})
@@ -640,6 +844,10 @@ func (x *runner) runCase(c Case, o *Outcome) {
 	}
 	if c.KeyRec {
 		x.runKeyRec(c, o)
+		return
+	}
+	if len(c.Multi) > 0 {
+		x.runMulti(c, o)
 		return
 	}
 	if len(c.Early) > 0 {
@@ -1010,6 +1218,64 @@ func genDuplex(rng *vlib.Rng, i int, thorough bool) Case {
 	return c
 }
 
+// genXReplay: one server factory, 2-3 connections; the frames of each direction recorded on one
+// connection are injected at the same frame position into a later one (right after the
+// handshake, or after an equal honest prefix), client args re-parsed or the same object re-dialled.
+func genXReplay(rng *vlib.Rng, i int) Case {
+	c := Case{Name: fmt.Sprintf("xreplay-%d", i), P: o4pair.RandomParams(rng, 0, i%5 == 4)}
+	n := 2 + i%2
+	sz1 := []int{vlib.Pick(rng, []int{1, 100, 1427, 1500, 3000})}
+	sz2 := []int{vlib.Pick(rng, []int{1, 64, 1427, 2000})}
+	fresh := (i/2)%2 == 1
+	later := (i/4)%2 == 1 // inject at a later position: after the same honest first burst
+	for k := 0; k < n; k++ {
+		mc := MConn{FreshArgs: fresh}
+		last := k == n-1
+		for d := 0; d < 2; d++ {
+			dir := (d + i) % 2
+			if !last {
+				mc.Steps = append(mc.Steps, MStep{Kind: "x", Dir: dir, Sizes: sz1, Tag: fmt.Sprintf("a%d", dir)},
+					MStep{Kind: "x", Dir: dir, Sizes: sz2, Tag: fmt.Sprintf("b%d", dir)})
+				continue
+			}
+			from := rng.Intn(n - 1)
+			if later {
+				mc.Steps = append(mc.Steps, MStep{Kind: "x", Dir: dir, Sizes: sz1, Tag: fmt.Sprintf("a%d", dir)},
+					MStep{Kind: "inject", Dir: dir, From: from, Tag: fmt.Sprintf("b%d", dir)})
+			} else {
+				mc.Steps = append(mc.Steps, MStep{Kind: "inject", Dir: dir, From: from, Tag: fmt.Sprintf("a%d", dir)})
+			}
+		}
+		c.Multi = append(c.Multi, mc)
+	}
+	return c
+}
+
+// genConnSeq: k connections in one process; some are closed while decoded payload is still
+// unread (the reader stopped after a few bytes), then new connections (same and different
+// factories) whose delivered streams must be exactly what THEIR peers wrote.
+func genConnSeq(rng *vlib.Rng, i int) Case {
+	c := Case{Name: fmt.Sprintf("connseq-%d", i), P: o4pair.RandomParams(rng, 0, false)}
+	k := rng.Range(3, 6)
+	for ci := 0; ci < k; ci++ {
+		mc := MConn{NewFactory: ci > 0 && rng.Intn(3) == 0, FreshArgs: rng.Bool()}
+		if ci%2 == 0 || rng.Intn(3) == 0 {
+			// the peer sends several frames, the reader takes a few bytes, the connection is closed
+			for _, dir := range [][]int{{0}, {1}, {0, 1}, {1, 0}}[rng.Intn(4)] {
+				mc.Steps = append(mc.Steps, MStep{Kind: "partial", Dir: dir, Sizes: []int{vlib.Pick(rng, []int{3000, 5000, 1500, 40000})}, ReadN: vlib.Pick(rng, []int{1, 7, 100, 1427})})
+			}
+		} else {
+			for d := 0; d < 2; d++ {
+				mc.Steps = append(mc.Steps, MStep{Kind: "x", Dir: (d + ci) % 2, Sizes: []int{vlib.Pick(rng, []int{1, 100, 1427, 3000})}},
+					MStep{Kind: "x", Dir: (d + ci) % 2, Sizes: []int{rng.Range(1, 2000)}})
+			}
+		}
+		mc.Steps = append(mc.Steps, MStep{Kind: "close"})
+		c.Multi = append(c.Multi, mc)
+	}
+	return c
+}
+
 func genRandom(rng *vlib.Rng, i int) Case {
 	iat := pickIAT(rng)
 	c := Case{Name: fmt.Sprintf("random-%d", i), P: o4pair.RandomParams(rng, iat, rng.Intn(4) == 0), Dir: rng.Intn(2)}
@@ -1121,6 +1387,18 @@ func (a *agg) record(o Outcome) {
 		a.noDriver++
 	}
 	// non-trivial: the tampered stream differs from the honest one before its end and reaches the decoder
+	if len(c.Multi) > 0 {
+		r.Case(caseKey(c), o.Stats["injections"]+o.Stats["partial-reads"] > 0)
+		r.Count("family", familyOf(c.Name))
+		r.Count("cross-connection", fmt.Sprintf("%s conns=%d injections=%d early-closes=%d", familyOf(c.Name), len(c.Multi), o.Stats["injections"], o.Stats["partial-reads"]))
+		if o.Stats["injections"] > 0 {
+			r.Count("error-class", o.ErrClass)
+		}
+		if v := o.V; v != nil {
+			r.Violate(v.Sig, "impl-oracle", fmt.Sprintf("[%s] %s", c.Name, v.Desc), c)
+		}
+		return
+	}
 	if c.KeyRec {
 		r.Case(caseKey(c), o.Stats["windows-tried"] > 0)
 		r.Count("family", "keyrec")
@@ -1461,6 +1739,15 @@ func main() {
 			}
 			run(cs)
 		}
+	}
+	// (3e) cross-connection histories in one process
+	{
+		n := r.Scale(64, 400)
+		cs := make([]Case, 0, 2*n)
+		for i := 0; i < n; i++ {
+			cs = append(cs, genXReplay(rng.Fork(), i), genConnSeq(rng.Fork(), i))
+		}
+		run(cs)
 	}
 	// (3d) on-path key recovery from the public transcript + ntor output tie
 	{
